@@ -10,7 +10,7 @@ from . import tlagen, tlaval, core, explore
 BASE = datetime(2019, 1, 1)
 CLAUSE_PROPS = {c: ["C16"] for c in ("timezone", "level", "returns", "days", "cagr", "volatility", "drawdown", "max_drawdown", "var",
                                       "expected_shortfall", "downside", "upside", "martin", "tracking", "ratio", "scale",
-                                      "reject", "raise", "frame")}
+                                      "reject", "raise", "frame", "tearsheet")}
 TOL = 1e-9
 
 
@@ -212,6 +212,39 @@ def check_series(s, m):
                 if o == "ok":
                     fails.append(("reject", "a series derived from a measured one with defect '%s' was measured by %s() instead of "
                                   "being rejected" % (dname, meth)))
+                    break
+    # the tearsheet reports the same numbers as the metric methods, also when another series with the same end points and
+    # length (other interior dates) has been reported on first in the same process
+    if not fails:
+        idx = list(x.index)
+        sib_idx = [idx[0]] + [t + timedelta(hours=1) for t in idx[1:-1]] + [idx[-1]]
+        if len(idx) >= 3 and all(a < b for a, b in zip(sib_idx, sib_idx[1:])):
+            sib = pd.Series([float(((3 * i) % 2) + 1) for i in range(len(idx))], index=pd.DatetimeIndex(sib_idx), name="L")
+            impl.classify(lambda: sib.tearsheet())
+        o, ts = impl.classify(lambda: x.tearsheet())
+        if o != "ok":
+            fails.append(("tearsheet", "tearsheet() raised %r on a valid level series" % (ts,)))
+        else:
+            col = ts.iloc[:, 0]
+            rows = [(("Context", "Observations"), "nr_observations", ()), (("Return", "CAGR"), "cagr", ()),
+                    (("Risk", "Volatility"), "volatility", ()), (("Risk", "Downside volatility"), "downside_volatility", ()),
+                    (("Risk", "Upside volatility"), "upside_volatility", ()), (("Risk", "Max drawdown"), "max_drawdown", ()),
+                    (("Risk", "Martin risk"), "martin_risk", ()), (("Risk", "VaR 5%"), "value_at_risk", (0.05,)),
+                    (("Risk", "Expected shortfall 5%"), "expected_shortfall", (0.05,)),
+                    (("Risk-adjusted return", "Sharpe ratio"), "sharpe_ratio", ()),
+                    (("Risk-adjusted return", "Sortino ratio"), "sortino_ratio", ()),
+                    (("Risk-adjusted return", "Calmar ratio"), "calmar_ratio", ()),
+                    (("Risk-adjusted return", "Martin ratio"), "martin_ratio", ())]
+            for key, name, args in rows:
+                o2, b = call(name, *args)
+                try:
+                    a = float(np.asarray(col[key]).ravel()[0])
+                    b = float(np.asarray(b).ravel()[0]) if o2 == "ok" else float("nan")
+                except Exception as exc:  # noqa: BLE001
+                    fails.append(("tearsheet", "tearsheet row %s unreadable: %r" % (key, exc)))
+                    break
+                if not ((math.isnan(a) and math.isnan(b)) or a == b or abs(a - b) <= 1e-9 * max(1.0, abs(b))):
+                    fails.append(("tearsheet", "tearsheet reports %s = %r, %s() on the same series gives %r" % (key[1], a, name, b)))
                     break
     # DataFrame with two columns: every metric column by column
     if not fails:
